@@ -556,6 +556,11 @@ pub struct NetInner {
     pub down: Mutex<std::collections::HashSet<String>>,
     /// interceptor for control calls (UMCTL ...) crossing the fake network; returns Some(reply) to short-cut
     pub call_hook: Mutex<Option<Arc<dyn Fn(&str, &[Vec<u8>]) -> Option<RespVec> + Send + Sync>>>,
+    /// faults for control calls (UMCTL ...) to proxies: call index -> "drop" | "dropreply" | "dup" | "delay:<k>"
+    pub call_faults: Mutex<HashMap<u64, String>>,
+    pub call_counter: AtomicU64,
+    /// delayed control messages: (due call index, target, command)
+    pub delayed: Mutex<Vec<(u64, String, Vec<Vec<u8>>)>>,
 }
 
 #[derive(Clone)]
@@ -613,6 +618,9 @@ impl Net {
                 log_redis: AtomicBool::new(true),
                 down: Mutex::new(Default::default()),
                 call_hook: Mutex::new(None),
+                call_faults: Mutex::new(HashMap::new()),
+                call_counter: AtomicU64::new(0),
+                delayed: Mutex::new(vec![]),
             }),
         }
     }
@@ -879,14 +887,53 @@ impl RedisClient for NetClient {
                         }
                     }
                     let is_ctl = cmd.first().map(|c| c.eq_ignore_ascii_case(b"UMCTL")).unwrap_or(false);
+                    let io_err = || RedisClientError::Io(std::io::Error::new(std::io::ErrorKind::ConnectionRefused, "refused"));
+                    let mut fault = String::new();
+                    let mut idx = 0;
+                    if is_ctl && net.inner.proxies.lock().contains_key(&target) {
+                        idx = net.inner.call_counter.fetch_add(1, Ordering::SeqCst) + 1;
+                        fault = net.inner.call_faults.lock().get(&idx).cloned().unwrap_or_default();
+                        // deliver delayed (stale) messages that are due
+                        let due: Vec<(u64, String, Vec<Vec<u8>>)> = {
+                            let mut d = net.inner.delayed.lock();
+                            let (now, later): (Vec<_>, Vec<_>) = d.drain(..).partition(|x| x.0 <= idx);
+                            *d = later;
+                            now
+                        };
+                        for (_, t, c) in due {
+                            let r = net.exec_at(&t, c.clone()).await;
+                            net.event(json!({"kind": "call", "idx": idx, "from": "delayed", "to": t, "cmd": lossy(&c), "fault": "late",
+                                             "reply": r.as_ref().map(resp_json).unwrap_or(json!({"t": "lost"}))}));
+                        }
+                        if fault == "drop" {
+                            net.event(json!({"kind": "call", "idx": idx, "from": from, "to": target, "cmd": lossy(&cmd), "fault": "drop", "reply": {"t": "lost"}}));
+                            return Err(io_err());
+                        }
+                        if let Some(k) = fault.strip_prefix("delay:") {
+                            let k: u64 = k.parse().unwrap_or(3);
+                            net.inner.delayed.lock().push((idx + k, target.clone(), cmd.clone()));
+                            net.event(json!({"kind": "call", "idx": idx, "from": from, "to": target, "cmd": lossy(&cmd), "fault": fault, "reply": {"t": "lost"}}));
+                            return Err(io_err());
+                        }
+                    }
                     match net.exec_at(&target, cmd.clone()).await {
                         Ok(r) => {
+                            let mut r = r;
+                            if fault == "dup" {
+                                if let Ok(r2) = net.exec_at(&target, cmd.clone()).await {
+                                    net.event(json!({"kind": "call", "idx": idx, "from": from, "to": target, "cmd": lossy(&cmd), "fault": "dup-first", "reply": resp_json(&r)}));
+                                    r = r2;
+                                }
+                            }
                             if is_ctl {
-                                net.event(json!({"kind": "call", "from": from, "to": target, "cmd": lossy(&cmd), "reply": resp_json(&r)}));
+                                net.event(json!({"kind": "call", "idx": idx, "from": from, "to": target, "cmd": lossy(&cmd), "fault": fault, "reply": resp_json(&r)}));
+                            }
+                            if fault == "dropreply" {
+                                return Err(io_err());
                             }
                             Ok(r)
                         }
-                        Err(()) => Err(RedisClientError::Io(std::io::Error::new(std::io::ErrorKind::ConnectionRefused, "refused"))),
+                        Err(()) => Err(io_err()),
                     }
                 }
             };
